@@ -1,14 +1,14 @@
 SPECIFICATION Spec
 CONSTANTS
-  Vals <- MC_Vals
+  Vals <- MCX_Vals
   ValSeq <- MC_ValSeq
   Fresh = FALSE
-  SortKinds <- MC_SortKinds
+  SortKinds <- MCX_SortKinds
   Seps <- MC_Seps
-  XKeys <- MC_NoXKeys
+  XKeys <- MC_XKeys
   XVals <- MC_XVals
-  MaxEx = 0
-  FillNs <- MC_NoXKeys
+  MaxEx = 2
+  FillNs <- MC_Fills
   Gen = "no"
 VIEW view
 INVARIANTS ListView ResultsAgree QueriesAgree SortLaws
